@@ -86,7 +86,8 @@ fn record(c: &Completions, id: usize, o: Outcome) {
 
 /// Submit `req` through the public API on a spawned task (so the director never blocks).
 pub fn submit(channel: &Channel, style: Style, id: usize, req: &Req, unit: u8, timeout: u64, comp: &Completions) {
-    let param = RequestParam::new(UnitId::new(unit), Duration::from_nanos(timeout));
+    // u64::MAX stands for "no time-out": the largest Duration
+    let param = RequestParam::new(UnitId::new(unit), if timeout == u64::MAX { Duration::MAX } else { Duration::from_nanos(timeout) });
     let ch = channel.clone();
     let comp = comp.clone();
     let req = req.clone();
@@ -379,7 +380,8 @@ pub(crate) fn spawn_cmd(ch: &Channel, what: u8, lvl: u8) {
 pub(crate) const MS: u64 = 1_000_000;
 
 fn pick_timeout() -> u64 {
-    [1 * MS, 10 * MS, 100 * MS, 250 * MS, 1000 * MS, 5000 * MS, 60_000 * MS][choose(7) as usize]
+    // the last one: Duration::MAX, i.e. the caller does not want a time-out at all
+    [1 * MS, 10 * MS, 100 * MS, 250 * MS, 1000 * MS, 5000 * MS, 60_000 * MS, 1 * MS, 10 * MS, 100 * MS, 1000 * MS, u64::MAX][choose(12) as usize]
 }
 
 pub const RTU_PATH: &str = "/dev/ttySIM1";
@@ -767,6 +769,19 @@ pub fn t35_ns(baud: u32) -> u64 {
 }
 
 fn run_lockstep_impl(cfg: &ScenCfg, out: &mut RunOut, rtu: bool) {
+    run_lockstep_inner(cfg, out, rtu);
+    // a panic inside the channel task is more than a robustness matter: every request and the whole
+    // life cycle of the channel end with it
+    let panics: Vec<String> = kernel::with(|w| w.panics.clone());
+    if let Some(p) = panics.first() {
+        let d = format!("the client task panicked: {}", p);
+        for prop in ["C10", "C12", "C13"] {
+            out.violate(prop, "client_task_panicked", d.clone());
+        }
+    }
+}
+
+fn run_lockstep_inner(cfg: &ScenCfg, out: &mut RunOut, rtu: bool) {
     lockstep_kernel_cfg();
     let (dec_idx, decode) = pick_decode(&cfg.decode);
     let addr: SocketAddr = "10.0.0.9:502".parse().unwrap();
@@ -928,7 +943,8 @@ fn run_lockstep_impl(cfg: &ScenCfg, out: &mut RunOut, rtu: bool) {
                             l.model.peer_bytes(&f[..cut]);
                             let dl = l.model.outstanding_deadline().unwrap();
                             let now = l.model.now;
-                            let rem = dl.saturating_sub(now);
+                            // (no time-out: pretend the deadline is ten seconds away)
+                            let rem = dl.saturating_sub(now).min(10_000 * MS);
                             let dt = match choose(4) {
                                 0 => rem / 2,
                                 1 => rem.saturating_sub(1),
@@ -1392,6 +1408,45 @@ pub fn run_retry_object(_cfg: &ScenCfg, out: &mut RunOut) {
                 out.violate("C14", "retry_object_panics", format!("min={:?} max={:?}: the strategy object panicked: {}", min, max, kernel::panic_message(&p)));
             }
         }
+    }
+    // the same (min, max) in a real client whose connects are refused: the wait is announced, the task stays
+    // alive (however absurd the delay), requests fail fast meanwhile, and shutdown ends it
+    if out.violations.is_empty() && chance(1, 2) {
+        let addr: SocketAddr = "10.0.0.9:502".parse().unwrap();
+        let states: StateLog = Arc::new(Mutex::new(Vec::new()));
+        let comps: Completions = Arc::new(Mutex::new(Vec::new()));
+        let (channel, task) = create_tcp_client_task_with_options(
+            HostAddr::ip(addr.ip(), addr.port()),
+            doubling_retry_strategy(min, max),
+            Some(Box::new(Listen { log: states.clone(), delay_ns: 0 })),
+            ClientOptions::default(),
+        );
+        let task = simtokio::task::spawn_named("tcp-client", task.run());
+        spawn_cmd(&channel, 0, 0);
+        kernel::settle();
+        // (a few waits at most: with a delay of 1 ns three seconds would be billions of attempts)
+        kernel::advance(((min.as_nanos().min(3_000_000_000) as u64).saturating_mul(20)).min(3_000 * MS));
+        submit(&channel, Style::Future, 0, &Req::ReadCoils { start: 0, count: 1 }, 1, 100 * MS, &comps);
+        kernel::settle();
+        let panics: Vec<String> = kernel::with(|w| w.panics.clone());
+        let st = states.lock().unwrap().clone();
+        let desc = format!("client with doubling_retry_strategy({:?}, {:?}) against a refusing peer", min, max);
+        if let Some(p) = panics.first() {
+            out.violate("C14", "retry_wait_panics", format!("{}: the task panicked: {}", desc, p));
+        } else if !st.iter().any(|(_, s)| matches!(s, MState::WaitAfterFailedConnect(_))) {
+            out.violate("C14", "retry_wait_not_announced", format!("{}: listener saw {:?}", desc, st));
+        } else {
+            let c = comps.lock().unwrap().clone();
+            if min >= Duration::from_secs(4) && (c.len() != 1 || c[0].2 != Outcome::NoConnection) {
+                out.violate("C13", "request_not_failed_fast_during_wait", format!("{}: completion {:?}", desc, c));
+            }
+        }
+        spawn_cmd(&channel, 3, 0);
+        kernel::settle();
+        if panics.is_empty() && !task.is_finished() {
+            out.violate("C13", "shutdown_not_honoured_during_wait", format!("{}: shutdown did not end the task", desc));
+        }
+        out.probe("retry_pair_in_real_client");
     }
     out.ops_checked = n as u64;
     out.nontrivial = Some(wl);
